@@ -116,7 +116,8 @@ RandCases ==
   SetToSeq({ [op |-> o, stream |-> Cat([i \in 1..Len(FrCands[k]) |-> LE(FrCands[k][i], 32)]), src |-> "gen"] : o \in {"rand.zp", "rand.zpstar"}, k \in 1..Len(FrCands) })
   \o SetToSeq({ [op |-> "rand.fq", stream |-> Cat([i \in 1..Len(FqCands[k]) |-> LE(FqCands[k][i], 48)]), src |-> "gen"] : k \in 1..Len(FqCands) })
   \o SetToSeq({ [op |-> "rand.fq2", stream |-> Cat([i \in 1..Len(FqCands[k]) |-> LE(FqCands[k][i], 48)]), src |-> "gen"] : k \in 1..Len(FqCands) })
-  \o SetToSeq({ [op |-> o, stream |-> s, src |-> "gen"] : o \in {"rand.powx", "rand.zpstar_px"},
+  \* fill: what the caller's output objects hold on entry (all-zero storage is a scalar below r; 0xA5.. is not) - the result may not depend on it
+  \o SetToSeq({ [op |-> o, stream |-> s, fill |-> fl, src |-> "gen"] : o \in {"rand.powx", "rand.zpstar_px"}, fl \in {165, 0, 1},
                 s \in PowXStreams \cup { Cat([i \in 1..4 |-> LE(Zero, 8)]) \o Cat([i \in 1..4 |-> LE(DigitsOf(v)[i], 8)]) \o Cat([i \in 1..4 |-> LE(One, 8)]) : v \in { One, Sub(RMod, One), ModN(Rnd(72), RMod) } } })
   \* the non-zero sampler: a first draw of zero (32 zero bytes), then a value; the decomposed form must follow the redraw
   \o SetToSeq({ [op |-> o, stream |-> Cat(<<LE(Zero, 32), LE(v, 32)>>), cls |-> "zero-first-draw", src |-> "gen"] : o \in {"rand.zpstar", "rand.zp"}, v \in { One, Sub(RMod, One), ModN(Rnd(71), RMod) } })
